@@ -66,8 +66,8 @@ func TestSemAggregates(t *testing.T) {
 		// ---- A10
 		{name: "A10/empty-with-group-by-no-row", tables: empty, sql: `SELECT k, count() FROM e GROUP BY k`, want: []string{}},
 		{name: "A10/empty-without-group-by-one-row", tables: empty,
-			sql:  `SELECT count(), sum(v), sum(k), min(v), max(k), any(s), avg(v), groupArray(s), uniqExact(s), argMax(s, v), groupBitOr(k), min(n), sum(n), quantile(0.5)(v), varPop(v) FROM e`,
-			want: []string{`0|0|0|0|0||nan|[]|0||0|\N|\N|nan|nan`},
+			sql:   `SELECT count(), sum(v), sum(k), min(v), max(k), any(s), avg(v), groupArray(s), uniqExact(s), argMax(s, v), groupBitOr(k), min(n), sum(n), quantile(0.5)(v), varPop(v) FROM e`,
+			want:  []string{`0|0|0|0|0||nan|[]|0||0|\N|\N|nan|nan`},
 			types: "UInt64|Float64|UInt64|Float64|UInt8|String|Float64|Array(String)|UInt64|String|UInt8|Nullable(Float64)|Nullable(Float64)|Float64|Float64"},
 		{name: "A10/empty-where-filters-all", tables: tb, sql: `SELECT count(), max(value) FROM samples_v3 WHERE fingerprint = 99`, want: []string{"0|0"}},
 		{name: "A10/constant-select-with-aggregate-empty", tables: empty, sql: `SELECT 'x', count() + 1 FROM e`, want: []string{"x|1"}},
@@ -97,12 +97,12 @@ func TestSemAggregates(t *testing.T) {
 		{name: "A4/groupBitOr-nine-matchers-cannot-hold",
 			// nine UInt8 terms: the ninth (shift by 8) is always 0, so the mask can never reach 511
 			tables: []*Table{mkTable("g", "fingerprint UInt64, key String", R(1, "k0"), R(1, "k1"), R(1, "k2"), R(1, "k3"), R(1, "k4"), R(1, "k5"), R(1, "k6"), R(1, "k7"), R(1, "k8"))},
-			sql: `SELECT fingerprint, groupBitOr(bitShiftLeft(key = 'k0', 0) + bitShiftLeft(key = 'k1', 1) + bitShiftLeft(key = 'k2', 2) + bitShiftLeft(key = 'k3', 3) + bitShiftLeft(key = 'k4', 4) + bitShiftLeft(key = 'k5', 5) + bitShiftLeft(key = 'k6', 6) + bitShiftLeft(key = 'k7', 7) + bitShiftLeft(key = 'k8', 8)) AS m, m == 511 FROM g GROUP BY fingerprint`,
-			want: []string{"1|255|0"}},
+			sql:    `SELECT fingerprint, groupBitOr(bitShiftLeft(key = 'k0', 0) + bitShiftLeft(key = 'k1', 1) + bitShiftLeft(key = 'k2', 2) + bitShiftLeft(key = 'k3', 3) + bitShiftLeft(key = 'k4', 4) + bitShiftLeft(key = 'k5', 5) + bitShiftLeft(key = 'k6', 6) + bitShiftLeft(key = 'k7', 7) + bitShiftLeft(key = 'k8', 8)) AS m, m == 511 FROM g GROUP BY fingerprint`,
+			want:   []string{"1|255|0"}},
 		{name: "A4/groupBitOr-nine-matchers-widened",
 			tables: []*Table{mkTable("g", "fingerprint UInt64, key String", R(1, "k0"), R(1, "k1"), R(1, "k2"), R(1, "k3"), R(1, "k4"), R(1, "k5"), R(1, "k6"), R(1, "k7"), R(1, "k8"))},
-			sql: `SELECT groupBitOr(bitShiftLeft(toUInt64(key = 'k0'), 0) + bitShiftLeft(toUInt64(key = 'k1'), 1) + bitShiftLeft(toUInt64(key = 'k2'), 2) + bitShiftLeft(toUInt64(key = 'k3'), 3) + bitShiftLeft(toUInt64(key = 'k4'), 4) + bitShiftLeft(toUInt64(key = 'k5'), 5) + bitShiftLeft(toUInt64(key = 'k6'), 6) + bitShiftLeft(toUInt64(key = 'k7'), 7) + bitShiftLeft(toUInt64(key = 'k8'), 8)) AS m FROM g GROUP BY fingerprint`,
-			want: []string{"511"}},
+			sql:    `SELECT groupBitOr(bitShiftLeft(toUInt64(key = 'k0'), 0) + bitShiftLeft(toUInt64(key = 'k1'), 1) + bitShiftLeft(toUInt64(key = 'k2'), 2) + bitShiftLeft(toUInt64(key = 'k3'), 3) + bitShiftLeft(toUInt64(key = 'k4'), 4) + bitShiftLeft(toUInt64(key = 'k5'), 5) + bitShiftLeft(toUInt64(key = 'k6'), 6) + bitShiftLeft(toUInt64(key = 'k7'), 7) + bitShiftLeft(toUInt64(key = 'k8'), 8)) AS m FROM g GROUP BY fingerprint`,
+			want:   []string{"511"}},
 		{name: "A4/groupBitOr-non-integer", tables: tb, sql: `SELECT groupBitOr(value) FROM samples_v3`, raise: "ILLEGAL_TYPE_OF_ARGUMENT"},
 
 		// ---- A11
